@@ -132,11 +132,11 @@ def generate(rng, prop, tier):
             if rng.random() < 0.6:
                 skew = rng.choice([-1, 1, -acct["period"], acct["period"], rng.randint(-90, 90), rng.randint(-5, 5)])
             devices.append({"acct": a, "skew": skew,
-                            "form": rng.choice(["uri", "json", "dict", "pretty_b32", "pretty_hex", "raw", "uri_args", "lib_pretty"]),
+                            "form": rng.choice(["uri", "json", "dict", "pretty_b32", "pretty_hex", "raw", "uri_args", "lib_pretty", "object"]),
                         "direct": rng.random() < 0.4, "sep": rng.choice(["-", " ", False]), "kfmt": rng.choice(["base32", "hex", "base16"]),
                         "alt_label": rng.choice(["bob@example.org", "Ann Lee", "u/1&x=2", "ü@ö.example"]), "alt_issuer": rng.choice([None, "Example Corp", "a&b=c"]),
                             "deco": rng.choice(["none", "lower", "spaces", "dashes", "pad", "mixed"]),
-                            "factory": rng.choice(["stock", "same"])})
+                            "factory": rng.choice(["stock", "same"]), "wallet": rng.choice(WALLET_FACTORIES)})
     for d in devices:
         if d["form"] == "uri" and not accounts[d["acct"]]["label"]:
             d["form"] = "json"
@@ -199,11 +199,11 @@ def generate(rng, prop, tier):
             ops.append({"op": "restart", "acct": rng.randrange(n_acct)})
         elif k == "provision":
             ops.append({"op": "provision", "dev": rng.randrange(len(devices)),
-                        "form": rng.choice(["uri", "json", "dict", "pretty_b32", "pretty_hex", "raw", "uri_args", "lib_pretty"]),
+                        "form": rng.choice(["uri", "json", "dict", "pretty_b32", "pretty_hex", "raw", "uri_args", "lib_pretty", "object"]),
                         "direct": rng.random() < 0.4, "sep": rng.choice(["-", " ", False]), "kfmt": rng.choice(["base32", "hex", "base16"]),
                         "alt_label": rng.choice(["bob@example.org", "Ann Lee", "u/1&x=2", "ü@ö.example"]), "alt_issuer": rng.choice([None, "Example Corp", "a&b=c"]),
                         "deco": rng.choice(["none", "lower", "spaces", "dashes", "pad", "mixed"]),
-                        "factory": rng.choice(["stock", "same"])})
+                        "factory": rng.choice(["stock", "same"]), "wallet": rng.choice(WALLET_FACTORIES)})
         elif k == "hostile":
             ops.append({"op": "hostile", "acct": rng.randrange(n_acct),
                         "kind": rng.choice(HOSTILE_KINDS), "arg": rng.randint(0, 50)})
@@ -233,6 +233,12 @@ def generate(rng, prop, tier):
             ops.append({"op": "advance", "dt": 0})
     return {"cfg": cfg, "ops": ops}
 
+
+# receiving factories of the "object" provisioning form: no wallet (same wallet as the source: object returned as is), or
+# application secrets plus class-level defaults that are the source's own / the library's / different from both
+WALLET_FACTORIES = ["none", "same", "stock", "other", "other", "other2"]
+WALLET_DEFAULTS = {"none": {}, "stock": {}, "other": {"period": 60, "digits": 8, "alg": "sha256"},
+                   "other2": {"period": 15, "digits": 7, "alg": "sha512", "issuer": "Other Corp"}}
 
 HOSTILE_KINDS = ["uri_conflicting_issuer", "uri_duplicate_secret", "uri_duplicate_digits", "uri_duplicate_param", "uri_missing_secret",
                  "uri_unknown_type", "uri_bad_digits", "uri_bad_period", "uri_wrong_scheme", "uri_many_colons",
@@ -410,6 +416,9 @@ class _World:
     def _expect_fields(self, acct, form, factory):
         a = acct["cfg"]
         exp = {"key": acct["key"], "alg": a["alg"], "digits": a["digits"], "period": a["period"]}
+        if form == "object":
+            exp["label"] = a["label"]
+            exp["issuer"] = acct["totp"].issuer
         if form in ("uri", "json", "dict"):
             exp["label"] = a["label"]
             exp["issuer"] = acct["totp"].issuer
@@ -437,9 +446,33 @@ class _World:
             fac = self._factory(a, dev["clock"])
         else:
             fac = self.TOTP.using(now=dev["clock"])
+        if form == "object":
+            # a LIVE object handed to another factory's from_source(): same wallet -> the object itself; another wallet (here:
+            # application secrets configured on the receiving side) -> re-serialised in memory and loaded by the receiving class,
+            # whose class-level defaults (using()) need not be the source's
+            wk = op.get("wallet", "other")
+            wf = dict(WALLET_DEFAULTS[wk]) if wk in WALLET_DEFAULTS else dict(a.get("factory") or {})
+            if wk != "none":
+                wf["secrets"] = {"1": "application secret number one"}
+            fac = self.TOTP.using(now=dev["clock"], **wf)
+            factory = "wallet:" + wk
         with warnings.catch_warnings(record=True):
             warnings.simplefilter("always")
-            if form in ("uri", "json", "dict"):
+            if form == "object":
+                try:
+                    obj = fac.from_source(src)
+                except Exception as e:
+                    ctx.fail("C15", "roundtrip-raises", f"object: {factory}.from_source(<TOTP>) raised {type(e).__name__}: {e}",
+                             form=form, exc=type(e).__name__)
+                if wk != "none":
+                    ctx.fault("cross_wallet_object")
+                    ctx.check(obj is not src and obj.wallet is fac.wallet, "C15", "object-not-rewrapped",
+                              lambda: f"{factory}.from_source(<TOTP>) returned an object of wallet {obj.wallet!r}", form=form)
+                else:
+                    # same (absent) wallet: the object itself comes back; the device then keeps a copy bound to its own clock
+                    ctx.check(obj is src, "C15", "object-not-rewrapped", "same wallet, yet from_source(<TOTP>) built a new object", form=form)
+                    obj = self._factory(a, dev["clock"]).from_source(src.to_json())
+            elif form in ("uri", "json", "dict"):
                 if override:
                     try:
                         msg = src.to_uri(**{k: v for k, v in override.items() if v is not None})
@@ -495,9 +528,11 @@ class _World:
         cls_defaults = a.get("factory") or {}
         for name, want in exp.items():
             got = getattr(obj, name)
+            if form == "object" and name == "issuer" and want is None:
+                continue  # (a source without issuer takes the receiving class's default issuer, if it has one)
             if got != want:
                 attrs = {"field": name, "form": form, "factory_defaults": bool(cls_defaults) and factory == "same"}
-                ctx.fail("C15" if form in ("uri", "json", "dict") else "C13", "roundtrip-field-differs",
+                ctx.fail("C15" if form in ("uri", "json", "dict", "object") else "C13", "roundtrip-field-differs",
                          f"{form} via factory={factory} defaults={cls_defaults}: {name} {want!r} -> {got!r}", **attrs)
             ctx.n_checks += 1
         # same codes at three probe times
@@ -505,9 +540,9 @@ class _World:
         for t in (0, self.T, self.T + 7 * per + 3):
             want = ref_hotp(acct["key"], int(t) // per, a["alg"], a["digits"])
             got = obj.generate(int(t)).token
-            ctx.check(got == want, "C15" if form in ("uri", "json", "dict") else "C13", "roundtrip-token-differs",
+            ctx.check(got == want, "C15" if form in ("uri", "json", "dict", "object") else "C13", "roundtrip-token-differs",
                       lambda: f"{form}: token at {t} {got} != {want}", form=form)
-        if form in ("uri", "json", "dict"):
+        if form in ("uri", "json", "dict", "object"):
             ctx.nontrivial = ctx.nontrivial or ctx.prop == "C15"
             ctx.key("rt", form, factory, a["alg"] == "sha1", a["digits"] == 6, a["period"] == 30,
                     sorted(cls_defaults), _cls(a["label"]), _cls(a["issuer"]))
